@@ -56,7 +56,7 @@ Init == \E i \in 1..Len(Programs) : InitSem(i, <<>>, FALSE)
 Next == SemNext
 EmitInv == (EmitOn /\ Final) =>
    Emit([fam |-> "objects", cls |-> ClassOf(Cases[pid]), key |-> HName(Cases[pid]), pid |-> pid,
-         toks |-> Compact(Yield(MinParen(P))), stdin |-> stdin, repl |-> repl,
+         toks |-> Compact(Yield(MinParen(P))), tree |-> P, stdin |-> stdin, repl |-> repl,
          status |-> status, why |-> why, out |-> out, diags |-> diags, natlog |-> natlog, steps |-> steps])
 (* ListingStable: the listing order of an object changes only when the object is modified (its version grows) *)
 VersionGrows == [][\A r \in 1..Len(heap) : heap[r].t = "obj" => (heap'[r].ver >= heap[r].ver /\ (heap'[r].ver = heap[r].ver => heap'[r] = heap[r]))]_semvars
